@@ -41,6 +41,7 @@ func scenarios(tier string) []sched.Scenario {
 		{Name: "swap-unreachable", Fault: "swap-unreachable", Clients: 2, PerCli: 1, SyncData: true},
 		{Name: "lost-become-leader-response", Fault: "lost-become-leader-response", Clients: 2, PerCli: 1, SyncData: true},
 		{Name: "leader-swap", Fault: "leader-swap", Clients: 2, PerCli: 1, SyncData: true},
+		{Name: "swap-holder-leader-unreachable", Fault: "swap-holder", Clients: 0, PerCli: 0, SyncData: true},
 		{Name: "leader-crash-restart", Fault: "leader-crash-restart", Clients: 2, PerCli: 1, SyncData: true},
 		{Name: "coord-crash", Fault: "coord-crash", Clients: 2, PerCli: 1, SyncData: true},
 	}
